@@ -129,6 +129,7 @@ class Obl:
 class Engine:
     def __init__(self, key, contract: S.Contract = None):
         self.key = key
+        S.CURRENT_CALLER = key
         self.contract = contract or S.CONTRACTS[key]
         modname, qual = key.split(":")
         self.mod = ModCtx.get(modname)
@@ -787,6 +788,59 @@ class Engine:
                 yield from filt(0, st)
             yield from go(0, st1, [])
 
+    def ev_DictComp(self, n, st):
+        """{key(x): value(x) for x in <set / list>} with pure single-path key and value expressions: a new dict d with
+             (a) every element's key is a key of d;
+             (b) every key k of d comes from some element w(k) of the source: key(w(k)) == k and d[k] == value(w(k))
+           (which element wins when two share a key is left open - sound for 'the last one wins')"""
+        if len(n.generators) != 1 or n.generators[0].ifs or not isinstance(n.generators[0].target, ast.Name):
+            raise Unsupported("dict comprehension shape (line %d)" % n.lineno)
+        g = n.generators[0]
+        for st1, it in self.ev(g.iter, st):
+            if isinstance(it, Raised):
+                yield st1, it
+                continue
+            if it.ty.kind == "set":
+                et = it.ty.args[0]
+                sdom = st1.set_get(it)
+                member = lambda x: z3.Select(sdom, x)
+            elif is_listlike(it.ty) or it.ty.kind == "seq":
+                sq = ops.as_seq(st1, it)
+                et = sq.ty.args[0]
+                member = lambda x: z3.Contains(sq.t, z3.Unit(x))
+            else:
+                raise Unsupported("dict comprehension over %s (line %d)" % (it.ty, n.lineno))
+            e = fresh(et, "dcomp_elem")
+            probe = st1.fork()
+            if et.is_ref:
+                probe.assume(z3.And(e.t > 0, e.t < probe.alloc))
+            probe.env[g.target.id] = e
+            outs = list(self.ev_list([n.key, n.value], probe))
+            if len(outs) != 1 or isinstance(outs[0][1], Raised):
+                raise Unsupported("dict comprehension key/value is not a single pure path (line %d)" % n.lineno)
+            kv, vv = outs[0][1]
+            if kv.t is None or vv.t is None or kv.ty.kind in ("opt", "tuple") or vv.ty.kind in ("opt", "tuple"):
+                raise Unsupported("dict comprehension entry types %s: %s (line %d)" % (kv.ty, vv.ty, n.lineno))
+            kt, vt = kv.ty, vv.ty
+            d = st1.new_ref(DICT(kt, vt))
+            tag = fresh(INT).t.hash()
+            D = z3.Const("dcdom!%d" % tag, z3.ArraySort(sort_of(kt), z3.BoolSort()))
+            Vv = z3.Const("dcval!%d" % tag, z3.ArraySort(sort_of(kt), sort_of(vt)))
+            w = z3.Function("dcwit!%d" % tag, sort_of(kt), sort_of(et))
+            x = z3.Const("x!dc%d" % tag, sort_of(et))
+            k = z3.Const("k!dc%d" % tag, sort_of(kt))
+            okx = z3.And(x > 0, x < st1.alloc) if et.is_ref else z3.BoolVal(True)
+            st1.assume(z3.ForAll([x], z3.Implies(z3.And(okx, member(x)), z3.Select(D, z3.substitute(kv.t, (e.t, x)))),
+                                 patterns=[member(x)]))
+            wk = w(k)
+            okw = z3.And(wk > 0, wk < st1.alloc) if et.is_ref else z3.BoolVal(True)
+            st1.assume(z3.ForAll([k], z3.Implies(z3.Select(D, k),
+                                                 z3.And(okw, member(wk), z3.substitute(kv.t, (e.t, wk)) == k,
+                                                        z3.Select(Vv, k) == z3.substitute(vv.t, (e.t, wk)))),
+                                 patterns=[z3.Select(D, k)]))
+            st1.dict_set(d, D, Vv)
+            yield st1, d
+
     def map_comprehension(self, n, g, st, it):
         if getattr(it, "_values_of", None) is not None:
             d = it._values_of
@@ -816,15 +870,32 @@ class Engine:
         probe.env[g.target.id] = e
         npc = len(probe.pc)
         outs = list(self.ev(n.elt, probe))
-        if len(outs) != 1 or isinstance(outs[0][1], Raised):
+        normal = [o for o in outs if not isinstance(o[1], Raised)]
+        raising = [o for o in outs if isinstance(o[1], Raised)]
+        if len(normal) != 1:
             raise Unsupported("comprehension element expression is not a single pure path (line %d)" % n.lineno)
-        st_o, tv = outs[0]
+        st_o, tv = normal[0]
+        for so, _ in outs:
+            if so.alloc is not probe.alloc and not z3.eq(z3.simplify(so.alloc), z3.simplify(probe.alloc)) \
+                    or any(so.heap.get(hk) is not hv and not z3.eq(so.heap.get(hk), hv) for hk, hv in probe.heap.items()):
+                raise Unsupported("comprehension element expression has effects (line %d)" % n.lineno)
         if tv.ty.kind in ("opt", "tuple") or tv.t is None:
             raise Unsupported("comprehension element of type %s (line %d)" % (tv.ty, n.lineno))
+        skip = npc + (1 if et_src.is_ref else 0)
+        # an element expression that may raise: the comprehension raises when it does for some element (whatever came
+        # before), and yields the mapped list when it does for none
+        for so, rv in raising:
+            stx = st.fork()
+            j = fresh(INT, "comp_bad").t
+            stx.assume(z3.And(0 <= j, j < z3.Length(src.t)))
+            for c in so.pc[skip:]:
+                stx.assume(z3.substitute(c, (e.t, src.t[j])))
+            stx.trace.append("L%d:comp-raises" % n.lineno)
+            yield stx, rv
         r = fresh(SEQ(tv.ty), "comp")
         i = z3.Int("i!comp")
         st.assume(z3.Length(r.t) == z3.Length(src.t))
-        extra = [z3.substitute(c, (e.t, src.t[i])) for c in st_o.pc[npc + (1 if et_src.is_ref else 0):]]
+        extra = [z3.substitute(c, (e.t, src.t[i])) for c in st_o.pc[skip:]]
         st.assume(z3.ForAll([i], z3.Implies(z3.And(0 <= i, i < z3.Length(src.t)),
                                              z3.And([r.t[i] == z3.substitute(tv.t, (e.t, src.t[i]))] + extra))))
         yield st, self.alloc_list(st, r, tv.ty)
@@ -1019,7 +1090,7 @@ class Engine:
             q = "builtins:dict"
         elif q.endswith(":__M_locals_builtin"):
             q = "builtins:locals"
-        if q in S.CONTRACTS or q in S.VIEWS:
+        if q in S.CONTRACTS or q in S.VIEWS or (q + "@" + self.key) in S.CONTRACTS:
             yield from self.apply_contract(q, args, kwargs, st, "%s line %d" % (q, line), starv, dstarv)
             return
         from . import builtins_model as BM
@@ -1138,7 +1209,7 @@ class Engine:
     def default_of(self, c: S.Contract, p):
         fn = None
         if ":" in c.key and not c.key.startswith("fun:"):
-            modname, qual = c.key.split(":")
+            modname, qual = c.key.split("@")[0].split(":")
             try:
                 fn = ModCtx.get(modname).find_def(qual)
             except Exception:
@@ -1160,6 +1231,9 @@ class Engine:
         d = getattr(c, "defaults", {}).get(p)      # e.g. the real function takes **kw and forwards it
         if d is not None and a.kwarg is not None:
             return self.const_default(ast.parse(d, mode="eval").body)
+        if d is not None and a.vararg is not None and p not in [x.arg for x in pos + a.kwonlyargs]:
+            # the contract names the first few of the real function's *args: the ones not passed are absent
+            return self.const_default(ast.parse(d, mode="eval").body)
         return None
 
     def const_default(self, d):
@@ -1170,7 +1244,12 @@ class Engine:
         raise Unsupported("non-constant default")
 
     def apply_contract(self, key, args, kwargs, st, what, starv=None, dstarv=None):
-        c = S.VIEWS.get(key) or S.CONTRACTS[key]
+        # a contract stated for this caller only ("callee@caller") comes first, then a caller view, then the callee's own
+        if (key + "@" + self.key) in S.CONTRACTS:
+            key = key + "@" + self.key
+            c = S.CONTRACTS[key]
+        else:
+            c = S.VIEWS.get(key) or S.CONTRACTS[key]
         self.used_contracts.add(key)
         if c.assumed:
             self.used_assumed.add(key)
@@ -1922,7 +2001,17 @@ class Engine:
             if it.ty.kind == "any" and getattr(self.contract, "opaque_iter_spec", None):
                 yield from self.loop_rule(s, st1, k, ls, ("iter", V(Ty("fun", (), self.contract.opaque_iter_spec), it.t)))
                 continue
-            if is_dictlike(it.ty):
+            if getattr(it, "_items_of", None) is not None:
+                d = it._items_of
+                seqv = self.dict_key_seq(st1, d)
+                _, val0 = st1.dict_get(d)
+                vt0 = dict_tys(d.ty)[1]
+                if vt0.is_ref:
+                    kq = z3.Const("k!items", sort_of(dict_tys(d.ty)[0]))
+                    dom0, _ = st1.dict_get(d)
+                    st1.assume(z3.ForAll([kq], z3.Implies(z3.Select(dom0, kq), z3.And(z3.Select(val0, kq) > 0, z3.Select(val0, kq) < st1.alloc))))
+                seqv._items_val = (vt0, val0)
+            elif is_dictlike(it.ty):
                 seqv = self.dict_key_seq(st1, it)
             elif it.ty.kind == "set":
                 seqv = self.set_elem_seq(st1, it)
@@ -2155,6 +2244,11 @@ class Engine:
             return V(INT, rg[0] + i)
         if getattr(seqv, "_enumerate", False):
             return vtuple([V(INT, i), V(seqv.ty.args[0], seqv.t[i])])
+        if getattr(seqv, "_items_val", None) is not None:
+            # for k, v in d.items(): the i-th key with the value the dict held for it when the loop started
+            vt, val = seqv._items_val
+            kk = seqv.t[i]
+            return vtuple([V(seqv.ty.args[0], kk), V(vt, z3.Select(val, kk))])
         return V(seqv.ty.args[0], seqv.t[i])
 
 
